@@ -28,7 +28,7 @@ def main():
             if hasattr(mod, 'generate'):
                 mod.generate(chk)
             targets = list(getattr(mod, 'MODULES', [])) + ([mod.EXE] if getattr(mod, 'EXE', None) else []) \
-                + list(getattr(mod, 'EXES', []))
+                + list(getattr(mod, 'EXES', [])) + ([mod.BRIDGE] if getattr(mod, 'BRIDGE', None) else [])
         except Exception as e:  # pylint: disable=broad-except
             print('setup: %s: generate/import failed: %s' % (pid, e))
             failed.append(pid)
